@@ -6,9 +6,9 @@ import multiprocessing as mp
 import z3
 
 Z3_RLIMIT = int(os.environ.get('VERIF_Z3_RLIMIT', '60000000'))     # deterministic resource budget
-Z3_TIMEOUT_MS = int(os.environ.get('VERIF_Z3_TIMEOUT_MS', '60000'))   # wall-clock safety net only
+Z3_TIMEOUT_MS = int(os.environ.get('VERIF_Z3_TIMEOUT_MS', '120000'))   # wall-clock safety net only
 Z3_FIRST_MS = int(os.environ.get('VERIF_Z3_FIRST_MS', '8000'))
-CVC5_TIMEOUT_MS = int(os.environ.get('VERIF_CVC5_TIMEOUT_MS', '20000'))
+CVC5_TIMEOUT_MS = int(os.environ.get('VERIF_CVC5_TIMEOUT_MS', '40000'))
 
 
 def to_smt2(hyps, goal, logic=None):
